@@ -7,6 +7,7 @@ import (
 	"context"
 	"fmt"
 	"github.com/fasthttp/websocket"
+	"github.com/hprose/hprose-golang/v3/rpc"
 	"io"
 	"net"
 	"net/http"
@@ -35,7 +36,15 @@ type endpoint struct {
 	svc    *echo.Service
 	server *tp.Server
 	client *core.Client
+	// wrapped (tcp, unix, udp): a client whose OnConnect hook returns a pass-through wrapper around the
+	// connection, as a TLS, metering or logging hook would: the transport then holds a plain net.Conn, not
+	// the concrete connection type
+	wrapped *core.Client
 }
+
+type passThrough struct{ net.Conn }
+
+func wrapConn(c net.Conn) net.Conn { return passThrough{c} }
 
 var (
 	endpoints []*endpoint
@@ -53,6 +62,14 @@ func setup() {
 			panic(err)
 		}
 		ep := &endpoint{kind: kind, svc: s, server: srv, client: srv.Client(20 * time.Second)}
+		switch kind {
+		case "tcp", "unix":
+			ep.wrapped = srv.Client(20 * time.Second)
+			rpc.SocketTransport(ep.wrapped).OnConnect = wrapConn
+		case "udp":
+			ep.wrapped = srv.Client(20 * time.Second)
+			rpc.UDPTransport(ep.wrapped).OnConnect = wrapConn
+		}
 		endpoints = append(endpoints, ep)
 		byKind[kind] = ep
 	}
@@ -112,10 +129,15 @@ type rtCase struct {
 	seed     uint32
 	overUDP  bool
 	echoMode bool
+	wrapped  bool
 }
 
 func (c rtCase) String() string {
-	return fmt.Sprintf("%s request=%d bytes (%s) response=%d bytes seed=%d fasthttp-client=%v", c.ep.kind, c.reqLen, c.content, c.respLen, c.seed, tp.FastHTTPClient())
+	w := ""
+	if c.wrapped {
+		w = " connection wrapped by an OnConnect hook"
+	}
+	return fmt.Sprintf("%s request=%d bytes (%s) response=%d bytes seed=%d fasthttp-client=%v%s", c.ep.kind, c.reqLen, c.content, c.respLen, c.seed, tp.FastHTTPClient(), w)
 }
 
 func (c rtCase) build() (req, wantResp []byte) {
@@ -221,13 +243,18 @@ func TestRoundTrip(t *testing.T) {
 			c.respLen = c.reqLen
 		}
 		c.overUDP = c.ep.kind == "udp" && (c.reqLen > udpMax || c.respLen > udpMax)
+		c.wrapped = c.ep.wrapped != nil && rapid.IntRange(0, 2).Draw(rt, "wrappedConn") == 0
 		canon := c.String()
 		ev.S.Begin("round-trip", canon)
 		serial.Lock()
 		defer serial.Unlock()
 		req, want := c.build()
 		c.ep.svc.Take()
-		resp, err := tp.Raw(c.ep.client, req)
+		client := c.ep.client
+		if c.wrapped {
+			client = c.ep.wrapped
+		}
+		resp, err := tp.Raw(client, req)
 		seen, _, _ := c.ep.svc.Take()
 		problem := ""
 		switch {
